@@ -3,6 +3,7 @@ pub mod c10;
 pub mod c11;
 pub mod c12;
 pub mod c15;
+pub mod c16;
 pub mod c17;
 pub mod c19;
 pub mod c20;
@@ -18,6 +19,7 @@ pub fn dispatch(ctx: &Ctx) -> i32 {
         "C11" => c11::run(ctx),
         "C12" => c12::run(ctx),
         "C15" => c15::run(ctx),
+        "C16" => c16::run(ctx),
         "C17" => c17::run(ctx),
         "C19" => c19::run(ctx),
         "C20" => c20::run(ctx),
